@@ -584,7 +584,7 @@ fn main() {
      every defect variant. distinct = (falsified vector, method, kid form, override, scope, iss form, issuance form, duplicates, date extreme)",
   );
   let mut rng = args.rng(3);
-  let n = (if args.thorough { 2_400_000u64 } else { 6_000 } * scale / 1000 / args.nshards).max(60);
+  let n = (if args.thorough { 12_000_000u64 } else { 6_000 } * scale / 1000 / args.nshards).max(60);
   for i in 0..n {
     let mut p = Plan::all_good(&mut rng);
     match i % 8 {
